@@ -106,17 +106,55 @@ func checkC15(c *Ctx) {
 				hfl = NewFlow(p, hf)
 			}
 			for _, b := range hf.Blocks {
-				for _, s := range b.Succs {
-					for _, f := range hfl.edgeFacts(b, s) {
-						if f.Op == "!=" && oneIsNil(f) && strings.HasPrefix(nonNil(f), kCCTry) {
-							n++
-							w := cfgSearch(hfl, nil, s, isUnlockOrRet, isSignal, notFullEdge)
-							c.Check(w == nil, "C15.2", "Get: re-signal after extraction when another full batch remains", p.FuncPos(get),
-								"every path from a successful extraction to the end of the critical section calls signalReady or takes the !hasFullBatch() edge",
-								"after a successful extraction the lock can be released at "+posOf(p, w)+" with a full batch left and no signal")
-						}
+				iff, ok := b.Instrs[len(b.Instrs)-1].(*ssa.If)
+				if !ok || len(b.Succs) != 2 {
+					continue
+				}
+				bo, ok := iff.Cond.(*ssa.BinOp)
+				if !ok || (bo.Op != token.NEQ && bo.Op != token.EQL) {
+					continue
+				}
+				v := bo.X
+				if isNilConst(bo.X) {
+					v = bo.Y
+				} else if !isNilConst(bo.Y) {
+					continue
+				}
+				// the tested value is the result of tryExtractBatch (directly, or a variable that is nil or that result)
+				isTry, any := true, false
+				var lvs []Leaf
+				withLeafStops(func() { lvs = leaves(hfl, v, iff) }, try)
+				for _, lf := range lvs {
+					if isNilConst(lf.Val) {
+						continue
+					}
+					any = true
+					if !strings.HasPrefix(lf.KeyIn(hfl), kCCTry) {
+						isTry = false
 					}
 				}
+				if !isTry || !any {
+					continue
+				}
+				// only inside the critical section (a later test of the same variable, after the unlock, decides nothing here)
+				held := false
+				for _, m := range lockFlow(hf, lockState{})[iff] {
+					if m >= lockR {
+						held = true
+					}
+				}
+				if !held {
+					continue
+				}
+				s := b.Succs[0]
+				if bo.Op == token.EQL {
+					s = b.Succs[1]
+				}
+				n++
+				w := cfgSearch(hfl, nil, s, isUnlockOrRet, isSignal, notFullEdge)
+				c.Check(w == nil, "C15.2", "Get: re-signal after extraction when another full batch remains", p.FuncPos(get),
+					"every path from a successful extraction to the end of the critical section calls signalReady or takes the !hasFullBatch() edge",
+					"after a successful extraction the lock can be released at "+posOf(p, w)+" with a full batch left and no signal")
 			}
 		}
 		if n == 0 {
@@ -280,7 +318,7 @@ func checkC15(c *Ctx) {
 					"a command is appended only under !isDuplicate(cmd), cmd being an element of the cache", "append of "+elem+" not gated by !isDuplicate; facts: "+join(facts.Sorted()))
 			case fn == kCC+"cache":
 				nTrunc++
-				ok := trueOf(facts, func(k string) bool { return strings.HasPrefix(k, kBatchFull) }) &&
+				ok := c15BatchFull(facts) &&
 					strings.HasPrefix(val, "p0->"+kCC+"cache[phi@") && strings.HasSuffix(val, ":<none>]")
 				// the low bound is the examined-prefix counter: the phi that indexes the loop
 				idx := ""
@@ -309,7 +347,7 @@ func checkC15(c *Ctx) {
 			if isNilConst(v) {
 				continue
 			}
-			if !trueOf(fl.At(r), func(k string) bool { return strings.HasPrefix(k, kBatchFull) }) {
+			if !c15BatchFull(fl.At(r)) {
 				bad = append(bad, p.Pos(r.Pos()))
 			}
 		}
@@ -328,7 +366,7 @@ func checkC15(c *Ctx) {
 		}
 		c.Check(ok, "C15.4", "Batch.isFull: len(Commands) reaches batchSize", p.FuncPos(isFull), "true only when the batch holds batchSize commands", "unexpected comparison in Batch.isFull")
 	} else {
-		c.Unresolved("C15.4", "Batch.isFull", "anchor missing")
+		c.Exempt("C15.4", "Batch.isFull: len(Commands) reaches batchSize", "-", "the helper does not exist on this tree; the fullness test is evaluated where it is written (len(batch.Commands) == batchSize)")
 	}
 	// isDuplicate polarity: stored >= seq
 	{
@@ -412,8 +450,19 @@ func c15LockStepCounter(fl *Flow, fn *ssa.Function, st *ssa.Store) bool {
 			continue
 		}
 		bo, ok := e.Edges[i].(*ssa.BinOp)
-		if !ok || bo.Op != token.ADD || bo.X != ssa.Value(e) {
+		if !ok || bo.Op != token.ADD {
 			return false
+		}
+		// either e+1, or (index of the element just examined)+1 with index = r+1
+		if bo.X != ssa.Value(e) {
+			ib, ok := bo.X.(*ssa.BinOp)
+			one, ok2 := bo.Y.(*ssa.Const)
+			if !(ok && ok2 && ib.Op == token.ADD && ib.X == ssa.Value(r) && one.Value != nil && one.Int64() == 1) {
+				return false
+			}
+			if c1, ok := ib.Y.(*ssa.Const); !ok || c1.Value == nil || c1.Int64() != 1 {
+				return false
+			}
 		}
 		if cst, ok := bo.Y.(*ssa.Const); !ok || cst.Value == nil || cst.Int64() != 1 {
 			return false
@@ -458,4 +507,14 @@ func c15LockStepCounter(fl *Flow, fn *ssa.Function, st *ssa.Store) bool {
 	}
 	visit(elemAddr, 0)
 	return okUse
+}
+
+// c15BatchFull: the must-facts say that the batch being built holds batchSize commands, whether
+// the test is written inline or through Batch.isFull (whose summary supplies the comparison).
+func c15BatchFull(facts FactSet) bool {
+	lenCmds := func(k string) bool {
+		return strings.HasPrefix(k, "builtin len(") && strings.Contains(k, "hs/internal/proto/clientpb.Batch.Commands)")
+	}
+	size := func(k string) bool { return strings.HasSuffix(k, kCC+"batchSize") }
+	return hasCmp(facts, "==", lenCmds, size) || hasCmp(facts, "<=", size, lenCmds)
 }
